@@ -137,6 +137,10 @@ def main(argv=None):
         if r.get("crash") or r["errors"]:
             faults.extend((r["contract"], r["config"], e) for e in r["errors"])
         for u in r["untranslatable"]:
+            if c.standin:
+                if r.get("samples_run", 0) == 0:
+                    faults.append((r["contract"], r["config"], "stand-in contract: the cross-check on the real code did not run"))
+                continue
             untranslatable.append((r["contract"], r["config"], u))
         for o in r["obligations"]:
             if c.bounded:
@@ -257,6 +261,7 @@ def main(argv=None):
             "obligations_by_kind": by_kind,
             "backend": {"z3": __import__("z3").get_version_string(), "solver_seconds": solver_s},
             "stubs_used": stubs,
+            "standin_contracts": sorted({r["contract"] for r in results if vc.REGISTRY[r["contract"]].standin}),
             "known_findings_printed": sorted(known_hits),
             "cross_check": {"what": "the REAL functions run under CPython on inputs sampled from each contract's requires; every clause evaluated concretely "
                                     "(validates interpreter + stubs; stands in for functions that are untranslatable on the current tree; never counted as proved)",
